@@ -642,10 +642,19 @@ impl IoLoop {
                     )
                     .context(RegisterWithPollHandleSnafu)?;
             } else if had_data_to_write {
-                trace!("reregistering socket for readable only");
                 have_written_to_socket = true;
+                // If the very first write attempt could not take everything (e.g., the
+                // socket would block in the middle of the protocol header), we still
+                // need writable wakeups for the rest.
+                let interest = if self.inner.has_data_to_write() {
+                    trace!("reregistering socket for readable or writable");
+                    Ready::readable() | Ready::writable()
+                } else {
+                    trace!("reregistering socket for readable only");
+                    Ready::readable()
+                };
                 self.poll
-                    .reregister(stream, STREAM, Ready::readable(), PollOpt::edge())
+                    .reregister(stream, STREAM, interest, PollOpt::edge())
                     .context(RegisterWithPollHandleSnafu)?;
             }
             #[cfg(amiquip_verif)]
